@@ -75,9 +75,13 @@ Qed.
 Lemma tick_core : forall cur s, fst (mf_schedule cur s) = fw_mframe_schedule (mf_tasks_after cur s) cur.
 Proof. intros. unfold mf_schedule. cbv zeta. destruct (fw_mframe_schedule (mf_tasks_after cur s) cur); reflexivity. Qed.
 
+(* (an explicit equation: conversion must never be asked to compare two unfolded copies of the 32-fold recursion) *)
+Lemma core_eq m cur : fw_mframe_schedule m cur = fw_sched_tasks (u32 m) cur (range 0 32).
+Proof. reflexivity. Qed.
+
 Lemma core_flat : forall m cur cs, fw_mframe_schedule m cur = FwOk cs ->
   cs = flat_map (fun i => if Z.testbit (u32 m) i then calls_of i cur else []) (range 0 32).
-Proof. intros m cur cs H. exact (fw_sched_tasks_flat (u32 m) cur (range 0 32) cs H). Qed.
+Proof. intros m cur cs H. rewrite core_eq in H. apply (fw_sched_tasks_flat _ _ _ _ H). Qed.
 
 Lemma tick_flat : forall cur s cs, fst (mf_schedule cur s) = FwOk cs -> cs = flat_map (mf_task_calls cur s) (range 0 32).
 Proof.
